@@ -11,6 +11,7 @@ type vpTracked struct {
 	staged  []byte // bytes at staging time
 	current []byte // bytes on disk now (nil: deleted)
 	exists  bool
+	nowDir  bool // replaced on disk by a directory holding an untracked file
 }
 
 func vpBuildState(n, depth, maxc int, untracked bool) ([]vpTracked, []vpFile) {
@@ -29,8 +30,15 @@ func vpBuildState(n, depth, maxc int, untracked bool) ([]vpTracked, []vpFile) {
 		vpOK(zzvp.Run("add", p))
 		ts = append(ts, vpTracked{path: p, staged: c, current: c, exists: true})
 	}
+	var us []vpFile
 	for i := range ts {
-		switch zzvp.Choose(3) {
+		switch zzvp.Choose(3 + zzvp.Param("kindchange", 0)) {
+		case 3:
+			// the tracked file has become a directory that holds an untracked file
+			zzvp.RemoveAll(w + "/" + ts[i].path)
+			zzvp.WriteFile(w+"/"+ts[i].path+"/x", []byte("X"))
+			ts[i].current, ts[i].exists, ts[i].nowDir = nil, false, true
+			us = append(us, vpFile{ts[i].path + "/x", []byte("X")})
 		case 1:
 			// the first file's new bytes are free (they may equal any other file's bytes); the others get fixed new bytes
 			nc := []byte{byte('a' + i)}
@@ -44,7 +52,6 @@ func vpBuildState(n, depth, maxc int, untracked bool) ([]vpTracked, []vpFile) {
 			ts[i].current, ts[i].exists = nil, false
 		}
 	}
-	var us []vpFile
 	if untracked {
 		p := vpPath("u0", depth, zzvp.Param("ucomplen", 1))
 		for _, o := range ts {
@@ -215,6 +222,13 @@ func VP_C04_Rm() {
 			want = append(want, e)
 		}
 	}
+	// a named tracked path that is now a non-empty directory cannot be removed without touching untracked files: rm may refuse
+	blocked := false
+	for _, t := range ts {
+		if t.nowDir && vpUnder(t.path, arg) {
+			blocked = true
+		}
+	}
 	for _, u := range us {
 		c, ok := zzvp.ReadFile(w + "/" + u.path)
 		zzvp.Assert(ok && string(c) == string(u.content), "rm never removes or modifies an untracked file")
@@ -234,7 +248,7 @@ func VP_C04_Rm() {
 			}
 		}
 	} else {
-		zzvp.Assert(!named, "a tracked path (or tracked directory) is always addressable by rm")
+		zzvp.Assert(!named || blocked, "a tracked path (or tracked directory) is always addressable by rm")
 	}
 	_ = g
 	zzvp.Done()
